@@ -1092,6 +1092,31 @@ int __wrap_init_http_connection(void *connection, const void *server, void *read
 	return __real_init_http_connection(connection, server, reader, is_local);
 }
 
+/* where an injected allocation failure happens: 0 = the accounting allocator refuses (as at the heap cap), 1 = the C library
+ * returns NULL inside the accounting allocator (alloc.c is compiled with malloc / calloc renamed to the two functions below) */
+static int failalloc_site;
+static int libc_fail_pending;
+
+void *simk_libc_malloc(size_t n)
+{
+	if (libc_fail_pending) {
+		libc_fail_pending = 0;
+		errno = ENOMEM;
+		return NULL;
+	}
+	return malloc(n);
+}
+
+void *simk_libc_calloc(size_t a, size_t b)
+{
+	if (libc_fail_pending) {
+		libc_fail_pending = 0;
+		errno = ENOMEM;
+		return NULL;
+	}
+	return calloc(a, b);
+}
+
 static int alloc_should_fail(void)
 {
 	if (!in_daemon) return 0;
@@ -1123,16 +1148,24 @@ static void check_cap(void)
 
 void *__wrap_cjet_malloc(size_t size)
 {
-	if (alloc_should_fail()) return NULL;
+	if (alloc_should_fail()) {
+		if (!failalloc_site) return NULL;
+		libc_fail_pending = 1;
+	}
 	void *p = __real_cjet_malloc(size);
+	libc_fail_pending = 0;
 	check_cap();
 	return p;
 }
 
 void *__wrap_cjet_calloc(size_t nmemb, size_t size)
 {
-	if (alloc_should_fail()) return NULL;
+	if (alloc_should_fail()) {
+		if (!failalloc_site) return NULL;
+		libc_fail_pending = 1;
+	}
 	void *p = __real_cjet_calloc(nmemb, size);
+	libc_fail_pending = 0;
 	check_cap();
 	return p;
 }
@@ -1619,10 +1652,11 @@ static int handle_command(char *line)
 		return 0;
 	}
 	if (strcmp(cmd, "failalloc") == 0) {
-		long nth = 0, count = 1;
-		sscanf(rest, "%ld %ld", &nth, &count);
+		long nth = 0, count = 1, site = 0;
+		sscanf(rest, "%ld %ld %ld", &nth, &count, &site);
 		failalloc_in = nth;
 		failalloc_count = count;
+		failalloc_site = (int)site;
 		ds_put(&out, "{\"ok\":1}");
 		reply();
 		return 0;
